@@ -476,7 +476,7 @@ pub(crate) fn parse_varname_literal(literal: &str) -> VarName {
 
     // NEXT, skip to the final character.
     let start = ctx.mark();
-    let chars_left = ctx.tok().as_str().len() - 1;
+    let chars_left = ctx.tok().as_str().chars().count() - 1;
 
     for _ in 0..chars_left {
         ctx.skip();
